@@ -79,7 +79,48 @@ def c12_1(ctx: Ctx) -> RuleResult:
             res.add(f, n, "the candidate's objective comes from the event's `transformed_results` (optimizer domain)", ok,
                     "" if ok else f"the candidate objective derives from payload key(s) {sorted(keys) or '?'}: with a sign-flipping (maximisation) objective transform the tracker keeps the worst result",
                     construct=f"{f.name}: candidate operand of `{ast.unparse(n)}`")
-    res.floor = 1
+    # the incumbent handed to the comparison lives in the same (optimizer) domain: the
+    # tracker field passed as the current optimum is only ever assigned values that
+    # derive from `transformed_results`
+    trk = ctx.repo.cls(TRACKER)
+    h = trk.methods.get("handle_event")
+    upd = [g for g in ctx.repo.funcs_in(UTILS) if g.cls is None and {"results", "transformed_results"} <= set(g.params) and "optimal" in " ".join(g.params)]
+    for g in upd:
+        for caller, call_ in ctx.cg.callers(g):
+            ct = X.at(caller, call_)
+            inc = ct[2][0] if ct[2] else None
+            if inc is None:
+                continue
+            ok, why = False, f"the incumbent passed to {g.name} is `{show(inc, 60)}`"
+            incs = [a for a in (inc[1] if inc[0] == "phi" else (inc,)) if a != ("const", None)]
+            fld = None
+            if incs and all(a[0] == "attr" and root_of(a)[0] == "param" for a in incs):
+                fld = incs[0][2]
+            if fld is not None:
+                keys = set()
+                n_st = 0
+                for m_ in trk.methods.values():
+                    for st in nodes_in(m_, (ast.Assign, ast.AnnAssign)):
+                        targets = st.targets if isinstance(st, ast.Assign) else [st.target]
+                        for tg in targets:
+                            leaves = tg.elts if isinstance(tg, ast.Tuple) else [tg]
+                            for i, lf in enumerate(leaves):
+                                if isinstance(lf, ast.Attribute) and lf.attr == fld and st.value is not None:
+                                    vt = X.at(m_, st.value)
+                                    if isinstance(tg, ast.Tuple):
+                                        vt = ("item", vt, i)
+                                    if vt == ("const", None):
+                                        continue
+                                    n_st += 1
+                                    keys |= _payload_keys(ctx, m_, vt)
+                ok = n_st >= 1 and keys == {"transformed_results"}
+                why = "" if ok else f"tracker field `{fld}` (the incumbent) is assigned from payload {sorted(keys) or '?'}"
+            else:
+                why = (f"the incumbent `{show(inc, 50)}` is the reported (user-domain) result: its objective is compared with optimizer-domain candidates, "
+                       "so with a sign-flipping or rescaling objective transform every result (or none) displaces it")
+            res.add(caller, call_, "the incumbent of the comparison is the tracker's optimizer-domain optimum (assigned only from transformed results)", ok, why,
+                    construct=f"{caller.name}: incumbent argument of {g.name}")
+    res.floor = 2
     return res
 
 
@@ -154,6 +195,18 @@ def c12_3(ctx: Ctx) -> RuleResult:
     res.add(f, f.node, "any single violating entry makes the result infeasible (np.any)", anyred, "" if anyred else "not reduced with any()", construct=f"{f.name}: any")
     none_ok = any(isinstance(n.test, ast.Compare) and "tolerance" in ast.unparse(n.test) and "None" in ast.unparse(n.test) and isinstance(n.body[0], ast.Return) and isinstance(n.body[0].value, ast.Constant) and n.body[0].value.value is False for n in nodes_in(f, ast.If))
     res.add(f, f.node, "tolerance None disables the feasibility test", none_ok, "" if none_ok else "None tolerance not handled", construct=f"{f.name}: None tolerance")
+    # ... and only None does: every early `return False` is guarded by an identity test with None
+    # (a truthiness test would also switch the test off for tolerance 0.0)
+    early = []
+    for n in nodes_in(f, ast.If):
+        if n.body and isinstance(n.body[0], ast.Return) and isinstance(n.body[0].value, ast.Constant) and n.body[0].value.value is False:
+            t = n.test
+            is_none_test = isinstance(t, ast.Compare) and len(t.ops) == 1 and isinstance(t.ops[0], ast.Is) and isinstance(t.comparators[0], ast.Constant) and t.comparators[0].value is None
+            if not is_none_test:
+                early.append(n)
+    res.add(f, early[0] if early else f.node, "the test is skipped only when a quantity `is None` (tolerance 0.0 means strict feasibility)", not early,
+            "" if not early else f"`if {ast.unparse(early[0].test)}: return False` also disables the feasibility test for falsy values such as a tolerance of 0.0",
+            construct=f"{f.name}: only None disables")
     # callers pass the transformed item
     for caller, c in ctx.cg.callers(f):
         t = X.at(caller, c)
@@ -161,7 +214,7 @@ def c12_3(ctx: Ctx) -> RuleResult:
         keys = _payload_keys(ctx, caller, a0)
         ok = "transformed_results" in keys and "results" not in keys
         res.add(caller, c, "feasibility is judged on the optimizer-domain (transformed) item", ok, "" if ok else f"feasibility is judged on payload {sorted(keys)}", construct=f"{caller.name}: feasibility argument")
-    res.floor = 7
+    res.floor = 8
     return res
 
 
